@@ -7,6 +7,7 @@ import (
 	"math/rand"
 	"slices"
 	"strings"
+	"sync"
 	"time"
 
 	"github.com/gammazero/nexus/v3/stdlog"
@@ -110,6 +111,12 @@ type dealer struct {
 	// Used for round-robin call invocation.
 	prng *rand.Rand
 
+	// Call timeout timers. Their goroutines submit to actionChan, so they must
+	// all have exited before actionChan is closed.
+	timerCtx     context.Context
+	cancelTimers context.CancelFunc
+	timers       sync.WaitGroup
+
 	// Dealer behavior flags.
 	strictURI     bool
 	allowDisclose bool
@@ -154,6 +161,7 @@ func newDealer(logger stdlog.StdLog, strictURI, allowDisclose, debug bool) *deal
 		log:   logger,
 		debug: debug,
 	}
+	d.timerCtx, d.cancelTimers = context.WithCancel(context.Background())
 	go d.run()
 	return d
 }
@@ -407,6 +415,10 @@ func (d *dealer) removeSession(sess *wamp.Session) {
 
 // close stops the dealer, letting already queued actions finish.
 func (d *dealer) close() {
+	// Stop all call timeout timers and wait for their goroutines, so that
+	// none of them submits to the closed action channel later.
+	d.cancelTimers()
+	d.timers.Wait()
 	close(d.actionChan)
 	<-d.stopped
 	if d.debug {
@@ -918,13 +930,15 @@ func (d *dealer) syncCall(caller *wamp.Session, msg *wamp.Call) {
 	if timeout > 0 {
 		// Timer removed if context canceled, call cancelled if timeout.
 		var timerCtx context.Context
-		timerCtx, invk.timerCancel = context.WithTimeout(context.Background(),
+		timerCtx, invk.timerCancel = context.WithTimeout(d.timerCtx,
 			time.Duration(timeout)*time.Millisecond)
 
 		// Start goroutine to cancel pending call on timeout. Works like Cancel
 		// with mode=killnowait, and includes an error message argument "call
 		// timeout"
+		d.timers.Add(1)
 		go func() {
+			defer d.timers.Done()
 			<-timerCtx.Done()
 			if errors.Is(timerCtx.Err(), context.Canceled) {
 				// Timer canceled. Got response from callee, or caller canceled
